@@ -250,6 +250,7 @@ class Exec:
         self.loop_ordinal = 0
         self.checking = True            # False while evaluating contract text (no safety obligations)
         self.binders = 0                # > 0 while evaluating under a quantifier-bound variable
+        self.bound_stack = []
         self.notes = []
         self.is_generator = any(isinstance(n, (ast.Yield, ast.YieldFrom)) for n in ast.walk(self.fnode))
         self.fnname = "%s.%s" % (module.modname.split(".")[-1], qual)
